@@ -159,6 +159,7 @@ class bptk():
         self.visualizer = visualizer(config=self.config)
         self.abmrunner = HybridRunner(self.scenario_manager_factory) #TODO rename self.abmrunner to self.model_runner if still needed
         self.session_state = None
+        self._lock_guard = threading.Lock() # makes try_lock's test-and-set atomic
 
     def train_scenarios(self, scenarios, scenario_managers, episodes=1, agents=[], agent_states=[],
                           agent_properties=[], agent_property_types=[], series_names={}, return_df=False,
@@ -244,6 +245,15 @@ class bptk():
     def lock(self):
         if self.session_state is not None:
             self.session_state["lock"] = True
+    def try_lock(self):
+        """Take the session lock unless it is already taken. Returns True if the caller now holds the lock."""
+        with self._lock_guard:
+            if self.session_state is not None:
+                if self.session_state.get("lock", False):
+                    return False
+                self.session_state["lock"] = True
+            return True
+
     def unlock(self):
         if self.session_state is not None:
             self.session_state["lock"] = False
